@@ -178,7 +178,7 @@ fn mutate(rng: &mut Rng, text: &str) -> (String, &'static str) {
         }
         _ => {
             // capture / query oriented
-            let extra = *rng.pick(&[" @extra", " @a @b", "? @q", "* @many", " (#eq? @x \"y\")", " @x.y"]);
+            let extra = *rng.pick(&[" @extra", " @a @b", "? @q", "* @many", " (#eq? @x \"y\")", " @x.y", " @a @b @c @d", "+ @p @q @r @s"]);
             for t in toks.iter_mut() {
                 if t == ")" {
                     t.push_str(extra);
@@ -332,6 +332,7 @@ const DIRECTED: &[(&str, &str, &str)] = &[
     ("free_loop_variable_in_shorthand_body", "attribute sh = v => label = [v, i]\n(identifier) @x { node n for i in [1, 2] { attr (n) sh = i } }", "x\n"),
     ("calls_without_arguments_inside_calls", "(module) { node n attr (n) v = (plus 1 (plus)), w = (concat [1] (concat)), x = (and #true (or)), y = (format \"{}{}\" 1 (plus)) let zero = (plus) attr (n) z = (plus 41 1 zero) }", "pass\n"),
     ("empty_list_rendered", "(module (_)* @stmts) @m { node n attr (n) v = (format \"<{}>\" @stmts), w = (join [[], [1]]) print @stmts attr (@stmts) k = 1 }", ""),
+    ("four_captures_on_a_plus_quantified_node", "(identifier)+ @a @b @c @d { node n attr (n) la = (length @a), ld = (length @d) for x in @d { print x } }", "x = y\nz\n"),
     ("plus_after_capture_of_optional_pattern", "(assignment left: (_) @lhs right: (_)? @rhs+) { node n attr (n) l = (source-text @lhs) print @rhs }", "with a as b, c as d:\n    match = b\nwhile x: x = x - 1\n"),
     ("plus_on_top_of_star_quantifier", "(identifier)*+ @xs { node n attr (n) x = @xs }", "x = y\n"),
 ];
